@@ -1,5 +1,5 @@
 From Coq Require Import ZArith List Bool NArith Lia.
-From HK Require Import Model.NonceCache Model.Hmac Model.Reload Model.HmacHistory
+From HK Require Import Model.NonceCache Model.Hmac Model.ReloadAuth Model.HmacHistory
   Proofs.NonceCacheProofs Proofs.HmacProofs.
 Import ListNotations.
 Open Scope Z_scope.
